@@ -140,6 +140,11 @@ func genRelayCfg(g *gen, focus string) *Cfg {
 	}
 	// now and then a datagram write of the proxy fails (ENOBUFS): that one message is lost, nothing else changes
 	c.Faults.UDPWriteErrPct = g.pick2(0, 0, 0, 0, 0, 4, 20)
+	if focus != "C17" && g.chance(8) {
+		// a slow node: the proxy's queue consumers take a while per item, so messages that arrive at different instants
+		// are inside the proxy together (the twin worlds stay strictly sequential)
+		c.Knobs["recvCostUs"] = g.pick2(100, 500, 2000)
+	}
 	c.KeepNextHop = g.pick("", "", "true", "false", "yes", "no", "1")
 	if c.KeepNextHop == "" && g.chance(30) {
 		c.EnvKeep = g.pick("true", "false", "on")
